@@ -2,11 +2,13 @@ CONSTANTS
   PW = 251
   CA = 1
   CB = 60
+  EA = 250
+  ED = 2
   MaxLen = 3
   FirstBytes <- AllBytes
   VMax = 1023
   TextLen = 1
   SqrtPrimes = {3, 5, 7, 13, 17, 41, 97, 113, 193, 241, 251, 257}
 SPECIFICATION Spec
-INVARIANTS BinInv FpInv EpInv TextInv ValInv PointInv
+INVARIANTS BinInv FpInv EpInv EdInv TextInv ValInv PointInv
 CHECK_DEADLOCK FALSE
